@@ -84,6 +84,11 @@ def parenthesized (doc : List Tok) (sub parent : Nat) : List Tok :=
 def opToks (op : BinOp) : List Tok :=
   if op = .shr then [symSp ">", sym ">"] else [symSp op.sym]
 
+def Expr.isArgsCons : Expr → Bool
+  | .argsCons .. => true
+  | _ => false
+
+mutual
 def printExpr : Expr → List Tok
   | .ident n => [⟨.ident, n, false⟩]
   | .int neg l => if neg then [sym "-", ⟨.int, l, false⟩] else [⟨.int, l, false⟩]
@@ -122,6 +127,17 @@ def printExpr : Expr → List Tok
       | _ => parenthesized d e.prec precAccess
     d ++ [sym (if o then "?." else "."), ⟨.ident, n, false⟩]
   | .index e i => parenthesized (printExpr e) e.prec precAccess ++ sym "[" :: printExpr i ++ [sym "]"]
+  | .invoke f args => parenthesized (printExpr f) f.prec precAccess ++ sym "(" :: printArgs args ++ [sym ")"]
+  -- argument lists are not expressions (never printed on their own for a well-formed expression)
+  | .argsNil => [sym "<args>"]
+  | .argsCons _ _ _ => [sym "<args>"]
+/-- `Arguments.Doc` without the parentheses: arguments joined by `, `; `Argument.Doc`: `label: ` + expression -/
+def printArgs : Expr → List Tok
+  | .argsCons label a rest =>
+    (if label == "" then printExpr a else ⟨.ident, label, false⟩ :: sym ":" :: spaced (printExpr a)) ++
+      (if rest.isArgsCons then sym "," :: spaced (printArgs rest) else [])
+  | _ => []
+end
 
 /-- the lexer reads two adjacent `&` as one `&&` token -/
 def mergeAmp : List Tok → List Tok
